@@ -245,7 +245,7 @@ def topp(
         indices=tensor([4, 3, 2]))
     """
     if dim is None:
-        return input.topk(ceil(p * input.numel()), largest=largest)
+        return input.flatten().topk(ceil(p * input.numel()), largest=largest)
     else:
         return input.topk(ceil(p * input.size(dim)), dim=dim, largest=largest)
 
